@@ -159,18 +159,21 @@ func (neverReady) IsReady() bool             { return false }
 
 // rrWorld is one balancer (optionally under a rebalancer that never adjusts)
 type rrWorld struct {
-	r             *simkit.Run
-	sim           *simrt.Sim
-	rr            *roundrobin.RoundRobin
-	rb            *roundrobin.Rebalancer
-	viaRB         bool
-	sticky        bool
-	ownErrHandler bool
-	listener      bool
-	model         pool
-	ops           []*rrOp
-	mutations     int
-	failMeter     bool // the next meter the rebalancer asks for cannot be built
+	r               *simkit.Run
+	sim             *simrt.Sim
+	rr              *roundrobin.RoundRobin
+	rb              *roundrobin.Rebalancer
+	viaRB           bool
+	sticky          bool
+	ownErrHandler   bool
+	neighbour       *roundrobin.RoundRobin // a second instance from the same constructor, used independently
+	neighbourOps    int
+	callerReusesURL bool // URL values passed to UpsertServer are written to by the caller afterwards
+	listener        bool
+	model           pool
+	ops             []*rrOp
+	mutations       int
+	failMeter       bool // the next meter the rebalancer asks for cannot be built
 }
 
 func (w *rrWorld) admin() interface {
@@ -242,6 +245,7 @@ func newRRWorld(r *simkit.Run, viaRB, sticky, fine bool) *rrWorld {
 	if w.ownErrHandler {
 		opts = append(opts, roundrobin.ErrorHandler(ownHandler))
 	}
+	w.callerReusesURL = rapid.IntRange(0, 2).Draw(r.T, "caller-reuses-url-values") == 0
 	// by draw a request-rewrite listener is configured: it is told about every forwarded request (once), and what
 	// it does to the outgoing request's URL must not reach the pool any more than what the handler does
 	w.listener = rapid.IntRange(0, 2).Draw(r.T, "rewrite-listener") == 0
@@ -266,6 +270,13 @@ func newRRWorld(r *simkit.Run, viaRB, sticky, fine bool) *rrWorld {
 		r.T.Fatalf("roundrobin.New: %v", err)
 	}
 	w.rr = rr
+	if rapid.IntRange(0, 2).Draw(r.T, "neighbour-balancer") == 0 {
+		nb, err := roundrobin.New(next, opts...)
+		if err != nil {
+			r.T.Fatalf("roundrobin.New (neighbour): %v", err)
+		}
+		w.neighbour = nb
+	}
 	if viaRB {
 		ropts := []roundrobin.RebalancerOption{roundrobin.RebalancerMeter(func() (roundrobin.Meter, error) {
 			if w.failMeter {
@@ -299,7 +310,26 @@ type mutKey struct{}
 
 var errMeter = fmt.Errorf("simulated: meter cannot be built")
 
+// pokeNeighbour: a second balancer built by the same constructor lives next to the one under test and is
+// administered and used on its own; nothing that happens to it is the business of the one under test.
+func (w *rrWorld) pokeNeighbour() {
+	if w.neighbour == nil || rapid.IntRange(0, 3).Draw(w.r.T, "neighbour-busy") != 0 {
+		return
+	}
+	u := mustURL(fmt.Sprintf("http://neighbour-%d", rapid.IntRange(0, 9).Draw(w.r.T, "neighbour-server")))
+	switch rapid.IntRange(0, 2).Draw(w.r.T, "neighbour-op") {
+	case 0:
+		_ = w.neighbour.UpsertServer(u, roundrobin.Weight(rapid.IntRange(0, 3).Draw(w.r.T, "neighbour-weight")))
+	case 1:
+		_ = w.neighbour.RemoveServer(u)
+	default:
+		_, _ = w.neighbour.NextServer()
+	}
+	w.neighbourOps++
+}
+
 func (w *rrWorld) spawn(op *rrOp, fn func()) *rrOp {
+	w.pokeNeighbour()
 	w.ops = append(w.ops, op)
 	op.task = w.sim.Spawn(fmt.Sprintf("%s#%d", op.kind, len(w.ops)), func() {
 		op.call = w.sim.Seq
@@ -311,7 +341,16 @@ func (w *rrWorld) spawn(op *rrOp, fn func()) *rrOp {
 
 func (w *rrWorld) opUpsert(u *url.URL, hasW bool, wt int) *rrOp {
 	op := &rrOp{kind: "upsert", key: keyOf(u), hasW: hasW, w: wt, u: mustURL(u.String())}
+	// the URL value handed to the call is the caller's: the caller goes on using it (a loop that fills the pool
+	// from one reused URL value) once the call has returned
+	u = mustURL(u.String())
+	reuse := w.callerReusesURL
 	return w.spawn(op, func() {
+		if reuse {
+			defer func() {
+				u.Host, u.Path, u.Scheme = "reused-by-caller:9", "/reused", "https"
+			}()
+		}
 		var err error
 		if hasW && wt == -99 {
 			err = w.admin().UpsertServer(u) // expected to fail for another reason (meter); the model treats it as refused
